@@ -14,14 +14,14 @@ DEMOFILE=$(head -1 $D/demo.rs | sed -E 's/.*append to: *([^ ,;]+).*/\1/')
 [ -f "$WT/$DEMOFILE" ] || { echo "$ID: demo target '$DEMOFILE' not found" >> $R; }
 # a) clean + demo
 printf "\n" >> $WT/$DEMOFILE; cat $D/demo.rs >> $WT/$DEMOFILE
-(cd $WT && cargo test --offline --lib 2>&1 | grep "test result" ) > $OUT/$ID.clean.log
+(cd $WT && cargo test --offline --lib 2>&1 | grep -a "test result" ) > $OUT/$ID.clean.log
 CLEAN=$(cat $OUT/$ID.clean.log)
 git -C $WT checkout -q -- .
 # b) patch + demo
 git -C $WT apply $D/patch.diff || { echo "$ID: patch does not apply" >> $R; }
 printf "\n" >> $WT/$DEMOFILE
 if [ -f $D/demo_changed.rs ]; then cat $D/demo_changed.rs >> $WT/$DEMOFILE; else cat $D/demo.rs >> $WT/$DEMOFILE; fi
-(cd $WT && cargo test --offline --lib 2>&1 | grep "test result" ) > $OUT/$ID.patched.log
+(cd $WT && cargo test --offline --lib 2>&1 | grep -a "test result" ) > $OUT/$ID.patched.log
 PATCHED=$(cat $OUT/$ID.patched.log)
 git -C $WT checkout -q -- .
 git -C $WT apply $D/patch.diff
